@@ -457,6 +457,7 @@ class EvalMixin(object):
                 out.append((s, it))
                 continue
             csite = self.site(frame, node)
+            self.refuse_opaque_iteration(it)
             if it[0] == "cursor":
                 it = ("rows", it[1])
             elem = ("elem", it, csite)
